@@ -13,8 +13,11 @@ import (
 	"math/big"
 	"math/rand"
 	"os"
+	"runtime"
 	"sort"
 	"strconv"
+	"strings"
+	"sync"
 	"time"
 
 	"github.com/ohler55/ojg"
@@ -116,6 +119,32 @@ func maxWidth(t M) int {
 	return w
 }
 
+// what a worker is doing right now (for the watchdog: a reader that never returns cannot be recovered in-process)
+type stage struct {
+	idx   int
+	since time.Time
+	api   string
+	text  []byte
+	what  string // "write" | "parse"
+}
+
+var (
+	stMu   sync.Mutex
+	stages = map[int]*stage{}
+)
+
+func setStage(slot, idx int, what, api string, text []byte) {
+	stMu.Lock()
+	stages[slot] = &stage{idx: idx, since: time.Now(), api: api, text: text, what: what}
+	stMu.Unlock()
+}
+
+func clearStage(slot int) {
+	stMu.Lock()
+	delete(stages, slot)
+	stMu.Unlock()
+}
+
 func runSen(c scase, idx int) []byte {
 	// Go maps have no order: with two or more members and Sort off, two calls may emit different texts and a known
 	// quoting defect would surface under a different kind from run to run. Such trees are written with Sort on
@@ -132,6 +161,7 @@ func runSen(c scase, idx int) []byte {
 	var raws []raw
 	call := func(api string, fn func() ([]byte, error)) {
 		r := raw{api: api}
+		setStage(idx, idx, "write", api, nil)
 		func() {
 			defer func() {
 				if rec := recover(); rec != nil {
@@ -195,6 +225,7 @@ func runSen(c scase, idx int) []byte {
 		}
 		o := sout{As: []string{r.api}, X: ints(r.text), Ek: r.ek, E: r.e, R: M{"t": "none"}}
 		if r.ek == "" {
+			setStage(idx, idx, "parse", r.api, r.text)
 			o.R, o.Ek, o.E = readBack(r.text)
 		}
 		if len(o.E) > 100 {
@@ -203,10 +234,51 @@ func runSen(c scase, idx int) []byte {
 		idxOf[key] = len(outs)
 		outs = append(outs, o)
 	}
+	clearStage(idx)
 	return line(M{"tree": compress(full), "o": c.O, "outs": outs, "src": c.Src})
 }
 
+// watchdog: a call that does not return within 15 s or a heap beyond 2 GiB (a reader looping while it appends) means the
+// real code hangs. Normal mode: report the cases in flight on stderr ("HANG i j k") and exit 3; the pipeline re-runs them
+// one by one in -solo mode, where the hanging call is written to the trace as an event with ek = write-hang | parse-hang
+// for TraceSen to judge.
+func watchdog(solo bool, cases []scase) {
+	for {
+		time.Sleep(100 * time.Millisecond)
+		var ms runtime.MemStats
+		runtime.ReadMemStats(&ms)
+		stMu.Lock()
+		var stuck []*stage
+		for _, st := range stages {
+			if ms.HeapAlloc > 2<<30 || time.Since(st.since) > 15*time.Second {
+				stuck = append(stuck, st)
+			}
+		}
+		if len(stuck) > 0 {
+			if solo {
+				st := stuck[0]
+				c := cases[st.idx]
+				_, full := build(c.Tree, false)
+				o := sout{As: []string{st.api}, X: ints(st.text), R: M{"t": "none"}, Ek: st.what + "-hang",
+					E: "the call did not return (15 s) or the heap passed 2 GiB"}
+				os.Stdout.Write(line(M{"tree": compress(full), "o": c.O, "outs": []sout{o}, "src": c.Src}))
+				os.Exit(0)
+			}
+			ids := []string{}
+			for _, st := range stuck {
+				ids = append(ids, strconv.Itoa(st.idx))
+			}
+			fmt.Fprintf(os.Stderr, "HANG %s\n", strings.Join(ids, " "))
+			os.Exit(3)
+		}
+		stMu.Unlock()
+	}
+}
+
 func senExec(args []string) {
+	fs := flag.NewFlagSet("senexec", flag.ExitOnError)
+	solo := fs.Bool("solo", false, "one case, sequential; a hanging call becomes a trace event")
+	fs.Parse(args)
 	var cases []scase
 	readLines(os.Stdin, func(l []byte) {
 		var c scase
@@ -215,6 +287,7 @@ func senExec(args []string) {
 		}
 		cases = append(cases, c)
 	})
+	go watchdog(*solo, cases)
 	res := parallel(len(cases), func(i int) []byte { return runSen(cases[i], i) })
 	w := bufio.NewWriterSize(os.Stdout, 1<<20)
 	for _, l := range res {
